@@ -131,8 +131,15 @@ def s_sign(v):
         mk('DATA', 'c', 9, MD5=digest_for('MD5', 'C')),
         mk('MANIFEST', 'deep/Manifest', 3, MD5=digest_for('MD5', 'R'))],
         size=4, digest='S', signed=v.bool('sub_signed'))
+    # optionally the entry for "a" lives in a second Manifest in the top directory (as the
+    # Gentoo tree's Manifest.files.gz): a sub-Manifest although it sits next to the top one
+    second = v.bool('second_top')
+    first = mk('DATA', 'a', 9, MD5=digest_for('MD5', 'A'))
+    if second:
+        fs.add_manifest('Manifest.files.gz', [first], size=5, digest='T')
+        first = mk('MANIFEST', 'Manifest.files.gz', 5, MD5=digest_for('MD5', 'T'))
     fs.add_manifest(c.top_name, [
-        mk('DATA', 'a', 9, MD5=digest_for('MD5', 'A')),
+        first,
         mk('MANIFEST', 'sub/Manifest', 4, MD5=digest_for('MD5', 'S'))],
         signed=v.bool('top_signed'))
     c.sign = SIGN[v.choice('sign', 3)]
@@ -176,7 +183,7 @@ def judge_sign(c, out):
     if top is None or bool(top.signed) != want:
         return False, True
     for rel in ('sub/Manifest', 'sub/Manifest.bz2', 'sub/deep/Manifest',
-                'sub/deep/Manifest.bz2'):
+                'sub/deep/Manifest.bz2', 'Manifest.files.gz', 'Manifest.files'):
         n = fs.node(rel)
         if n is not None and n.signed:
             return False, True
@@ -212,7 +219,8 @@ def conditions(tier):
             'ask for a signature, and which Manifest nodes end up signed',
             bounds='sign option unset/on/off; top-level originally signed or not, loaded '
                    'with or without verification; sub-Manifests originally (wrongly) signed '
-                   'or not; top-level named Manifest or Manifest.gz; watermark none/0/250/'
+                   'or not; optional second Manifest (Manifest.files.gz) in the top directory; '
+                   'top-level named Manifest or Manifest.gz; watermark none/0/250/'
                    '10000 (renames); key id given or not'))
     return cs
 
